@@ -70,6 +70,10 @@ def _observe(job):
             # a third of the models are instances that were already fitted to, and queried on, a table with another dependence
             # (every column shuffled on its own): the property speaks of the fitted model, whatever the instance did before
             old = pd.DataFrame({c: rs.permutation(df[c].to_numpy()) for c in cols})
+            if seed % 2:      # the earlier table had the same columns in another order (and, now and then, one more in front)
+                old = old[cols[::-1]]
+                if seed % 4 == 1:
+                    old.insert(0, 'extra', np.arange(len(old), dtype=float) % 7)
             m.fit(old)
             for f in (m.probability_density, m.log_probability_density, m.cumulative_distribution):
                 try:
